@@ -1805,17 +1805,38 @@ func c20Formats(c *Ctx) {
 				continue
 			}
 			errT := p.Vals[len(p.Vals)-1]
+			var fargs []Term
 			call, ok := errT.(TCall)
-			if !ok || call.Fun == nil || (call.Fun.FullName() != "fmt.Errorf" && call.Fun.FullName() != "errors.New") {
-				debugf("c20Formats %s: returned %s\n", name, c.termStr(errT))
-				continue
+			if ok && call.Fun != nil && (call.Fun.FullName() == "fmt.Errorf" || call.Fun.FullName() == "errors.New") {
+				fargs = unpack(call.Args)
+				if call.Fun.FullName() == "fmt.Errorf" {
+					fargs = numericArgs(fargs)
+				}
+			} else {
+				// a typed failure value, &SyntaxError{Line: …, Msg: …}: every field may be printed by its Error() method — every
+				// integer among them (and in the messages they were formatted from) must be the line counter
+				t := errT
+				if cv, isCv := t.(TConv); isCv {
+					t = cv.X
+				}
+				ad, isAd := t.(TAddr)
+				lit, isLit := ad.X.(TLit)
+				if !isAd || !isLit || lit.Type == nil {
+					debugf("c20Formats %s: returned %s\n", name, c.termStr(errT))
+					continue
+				}
+				if _, isStruct := lit.Type.Underlying().(*types.Struct); !isStruct || !types.Implements(types.NewPointer(lit.Type), types.Universe.Lookup("error").Type().Underlying().(*types.Interface)) {
+					continue
+				}
+				for _, el := range lit.Elts {
+					if k, isK := constInt(el); isK && k == 0 {
+						continue // Line: 0 — "cites no line"
+					}
+					fargs = append(fargs, el)
+				}
 			}
 			// integers flowing into the message
 			var ints []Term
-			fargs := unpack(call.Args)
-			if call.Fun.FullName() == "fmt.Errorf" {
-				fargs = numericArgs(fargs)
-			}
 			for _, a := range fargs {
 				collectInts(a, &ints)
 			}
